@@ -1,9 +1,11 @@
 (* C07 — Words the user adds to a dictionary are accepted from then on and never lost.
    This file pins the statements; it contains nothing but `exact`.
-   Model: Model/DictIO.v.  Unicode case mapping (is_lower, lower), the curated dictionary and the iteration
-   order of the hash map are universally quantified; the only premise on them is that iteration is a
-   permutation.  The `_refuted` theorems are concrete histories on which the faithful model violates the
-   property text; each is replayed on the implementation by the harness (corpus/C07). *)
+   Model: Model/DictIO.v (the code AFTER the fix commits 87b8642, ebb53b3, f2dc537, ba0a239).  Unicode case
+   mapping (is_lower, lower), the curated dictionary and the iteration order of the hash map are universally
+   quantified; the only premise on them is that iteration is a permutation.  The `_refuted` theorems are
+   concrete histories on which the faithful model violates the property text (findings that are still
+   open); each is replayed on the implementation by the harness (corpus/C07).  The `_old_refuted` Examples
+   are witnesses of the behaviour BEFORE the fix commits, over the `_old` definitions (history only). *)
 Require Import Base DictIO DictIOProofs.
 From Coq Require Import Permutation.
 
@@ -26,22 +28,23 @@ Check C07_save_load : forall (is_lower : N -> bool) (lower : N -> list N) (iter_
     dict_equiv d' d /\ dict_wf is_lower lower d' /\ Forall line_safe (words_of d').
 Print Assumptions C07_save_load.
 
-(* no crash: after `AddWord sc w` every later check of a document in scope accepts w — through any further
-   adds, checks and restarts.  Excluded, each with its own _refuted witness below: typographic
-   apostrophes (normalized w = w), a curated entry of another dialect, a later add of another spelling
-   with the same case-folded id to the same file. *)
+(* accepted from then on AND never lost: after `AddWord sc w` every later check of a document in scope
+   accepts w — through any further adds, checks, restarts and adds that DIE AT ANY CRASH POINT of save_dict
+   (CrashAdd sc' w' i: the i-th crash state; op_safe only asks that added words are line-safe).
+   Two classes remain excluded, each with its own _refuted witness below: a curated entry of another
+   dialect (FC07b), a later add (completed or crashed) to the same file of another spelling with the same
+   case-folded id (F15) — a spelling that differs only in the kind of apostrophe is harmless since ebb53b3. *)
 Theorem C07_add_sequential : forall (is_lower : N -> bool) (lower : N -> list N) (curated : dict)
     (iter_order : list word -> list word),
   (forall l : list word, Permutation (iter_order l) l) ->
   forall (s0 : fsys) (h1 : list op) (sc : scope) (w : word) (h2 : list op) (u : url) (p : path),
   fs_ok is_lower lower s0 ->
   Forall op_safe (h1 ++ AddWord sc w :: h2) ->
-  normalized w = w ->
   (forall e : entry, lookup (word_id is_lower lower w) curated = Some e -> snd e = true) ->
   target sc = Some p ->
-  (forall (sc' : scope) (w' : word),
-     In (AddWord sc' w') h2 -> target sc' = Some p ->
-     word_id is_lower lower w' = word_id is_lower lower w -> w' = w) ->
+  (forall (o : op) (sc' : scope) (w' : word),
+     In o h2 -> op_add o = Some (sc', w') -> target sc' = Some p ->
+     word_id is_lower lower w' = word_id is_lower lower w -> normalized w' = normalized w) ->
   p = UserP \/ (exists n : list N, file_dict_name u = Some n /\ p = FileP n) ->
   accepted is_lower lower
     (children is_lower lower curated (run_fs is_lower lower curated iter_order s0 (h1 ++ AddWord sc w :: h2)) u) w = true.
@@ -52,12 +55,11 @@ Check C07_add_sequential : forall (is_lower : N -> bool) (lower : N -> list N) (
   forall (s0 : fsys) (h1 : list op) (sc : scope) (w : word) (h2 : list op) (u : url) (p : path),
   fs_ok is_lower lower s0 ->
   Forall op_safe (h1 ++ AddWord sc w :: h2) ->
-  normalized w = w ->
   (forall e : entry, lookup (word_id is_lower lower w) curated = Some e -> snd e = true) ->
   target sc = Some p ->
-  (forall (sc' : scope) (w' : word),
-     In (AddWord sc' w') h2 -> target sc' = Some p ->
-     word_id is_lower lower w' = word_id is_lower lower w -> w' = w) ->
+  (forall (o : op) (sc' : scope) (w' : word),
+     In o h2 -> op_add o = Some (sc', w') -> target sc' = Some p ->
+     word_id is_lower lower w' = word_id is_lower lower w -> normalized w' = normalized w) ->
   p = UserP \/ (exists n : list N, file_dict_name u = Some n /\ p = FileP n) ->
   accepted is_lower lower
     (children is_lower lower curated (run_fs is_lower lower curated iter_order s0 (h1 ++ AddWord sc w :: h2)) u) w = true.
@@ -110,173 +112,234 @@ Check C07_file_dict_name_inj : forall p q : list N,
   file_dict_name (FileUrl p) = file_dict_name (FileUrl q) -> components p = components q.
 Print Assumptions C07_file_dict_name_inj.
 
-(* F20: /a/b and /a%b share the dictionary file a%b%, so a word added for one is accepted in the other *)
-Theorem C07_file_dict_name_refuted :
-  (components p_a_b <> components p_a_pct_b /\
+(* F20 (open): /a/b and /a%b share the dictionary file a%b%, so a word added for one is accepted in the other *)
+Theorem C07_file_dict_name_refuted : (components p_a_b <> components p_a_pct_b /\
    file_dict_name (FileUrl p_a_b) = file_dict_name (FileUrl p_a_pct_b)) /\
   (let s := run_fs a_is_lower a_lower [] id_order fs_empty [AddWord (SFile (FileUrl p_a_b)) w_zorgle] in
    accepted a_is_lower a_lower (children a_is_lower a_lower [] fs_empty (FileUrl p_a_pct_b)) w_zorgle = false /\
    accepted a_is_lower a_lower (children a_is_lower a_lower [] s (FileUrl p_a_pct_b)) w_zorgle = true).
 Proof. exact (conj file_dict_name_refuted file_scope_refuted). Qed.
-Check C07_file_dict_name_refuted :
-  (components p_a_b <> components p_a_pct_b /\
+Check C07_file_dict_name_refuted : (components p_a_b <> components p_a_pct_b /\
    file_dict_name (FileUrl p_a_b) = file_dict_name (FileUrl p_a_pct_b)) /\
   (let s := run_fs a_is_lower a_lower [] id_order fs_empty [AddWord (SFile (FileUrl p_a_b)) w_zorgle] in
    accepted a_is_lower a_lower (children a_is_lower a_lower [] fs_empty (FileUrl p_a_pct_b)) w_zorgle = false /\
    accepted a_is_lower a_lower (children a_is_lower a_lower [] s (FileUrl p_a_pct_b)) w_zorgle = true).
 Print Assumptions C07_file_dict_name_refuted.
 
-(* what a crash during save_dict can leave in the target file: exactly the old content or a prefix of the
-   new one (decision function used by the correspondence on real crash points) *)
-Theorem C07_crash_states_spec : forall (p : path) (ws : list word) (s : fsys) (obs : option content),
-  crash_possibleb (fs_read p s) (serialize ws) obs = true <->
-  (exists s' : fsys, In s' (crash_states None (s, []) (save_effects p ws)) /\ fs_read p s' = obs).
+(* save_dict as written (temporary sibling, flush, sync_all, rename): at EVERY crash point — after any prefix
+   of the effects, with any prefix of the buffered bytes persisted — the dictionary file holds its old
+   content or the complete new one *)
+Theorem C07_crash_save : forall (p : path) (ws : list word) (s s' : fsys),
+  In s' (crash_states None (s, []) (save_effects p ws)) ->
+  fs_read p s' = fs_read p s \/ fs_read p s' = Some (Clean (serialize ws)).
+Proof. exact crash_save. Qed.
+Check C07_crash_save : forall (p : path) (ws : list word) (s s' : fsys),
+  In s' (crash_states None (s, []) (save_effects p ws)) ->
+  fs_read p s' = fs_read p s \/ fs_read p s' = Some (Clean (serialize ws)).
+Print Assumptions C07_crash_save.
+
+(* exactly what a crash during save_dict can leave in the dictionary file and in its temporary sibling:
+   (old, sibling as before or a possibly torn prefix of the new text) or (complete new text, no sibling).
+   This is the decision function the correspondence applies to what real kills leave on disk. *)
+Theorem C07_crash_states_spec : forall (p : path) (ws : list word) (s : fsys) (obs obstmp : option content),
+  crash_possibleb (fs_read p s) (fs_read (TmpP p) s) (serialize ws) obs obstmp = true <->
+  (exists s' : fsys, In s' (crash_states None (s, []) (save_effects p ws)) /\
+                     fs_read p s' = obs /\ fs_read (TmpP p) s' = obstmp).
 Proof. exact crash_possibleb_spec. Qed.
-Check C07_crash_states_spec : forall (p : path) (ws : list word) (s : fsys) (obs : option content),
-  crash_possibleb (fs_read p s) (serialize ws) obs = true <->
-  (exists s' : fsys, In s' (crash_states None (s, []) (save_effects p ws)) /\ fs_read p s' = obs).
+Check C07_crash_states_spec : forall (p : path) (ws : list word) (s : fsys) (obs obstmp : option content),
+  crash_possibleb (fs_read p s) (fs_read (TmpP p) s) (serialize ws) obs obstmp = true <->
+  (exists s' : fsys, In s' (crash_states None (s, []) (save_effects p ws)) /\
+                     fs_read p s' = obs /\ fs_read (TmpP p) s' = obstmp).
 Print Assumptions C07_crash_states_spec.
 
-(* F14: a crash between File::create and the first write reloads to the EMPTY dictionary *)
-Theorem C07_crash_refuted :
-  let s0 := run_fs a_is_lower a_lower [] id_order fs_empty [AddWord SUser w_alpha; AddWord SUser w_beta] in
-  option_map words_of (load_dict a_is_lower a_lower UserP s0) = Some [w_alpha; w_beta] /\
-  exists i, option_map words_of (load_dict a_is_lower a_lower UserP
-              (run_fs a_is_lower a_lower [] id_order s0 [CrashAdd SUser w_gamma i])) = Some [].
-Proof. exact crash_refuted. Qed.
-Check C07_crash_refuted :
-  let s0 := run_fs a_is_lower a_lower [] id_order fs_empty [AddWord SUser w_alpha; AddWord SUser w_beta] in
-  option_map words_of (load_dict a_is_lower a_lower UserP s0) = Some [w_alpha; w_beta] /\
-  exists i, option_map words_of (load_dict a_is_lower a_lower UserP
-              (run_fs a_is_lower a_lower [] id_order s0 [CrashAdd SUser w_gamma i])) = Some [].
-Print Assumptions C07_crash_refuted.
+(* the property's crash clause: a crash during an add reloads to the old dictionary or to the old
+   dictionary plus the new word — at most the word being added is lost *)
+Theorem C07_add_crash : forall (is_lower : N -> bool) (lower : N -> list N) (iter_order : list word -> list word),
+  (forall l : list word, Permutation (iter_order l) l) ->
+  forall (p : path) (w : word) (s s' : fsys),
+  fs_ok is_lower lower s -> is_tmp p = false -> line_safe w ->
+  In s' (crash_states None (s, [])
+           (save_effects p (words_iter iter_order (append_word is_lower lower (dict_at is_lower lower p s) w)))) ->
+  dict_at is_lower lower p s' = dict_at is_lower lower p s \/
+  dict_equiv (dict_at is_lower lower p s') (append_word is_lower lower (dict_at is_lower lower p s) w).
+Proof. exact add_crash. Qed.
+Check C07_add_crash : forall (is_lower : N -> bool) (lower : N -> list N) (iter_order : list word -> list word),
+  (forall l : list word, Permutation (iter_order l) l) ->
+  forall (p : path) (w : word) (s s' : fsys),
+  fs_ok is_lower lower s -> is_tmp p = false -> line_safe w ->
+  In s' (crash_states None (s, [])
+           (save_effects p (words_iter iter_order (append_word is_lower lower (dict_at is_lower lower p s) w)))) ->
+  dict_at is_lower lower p s' = dict_at is_lower lower p s \/
+  dict_equiv (dict_at is_lower lower p s') (append_word is_lower lower (dict_at is_lower lower p s) w).
+Print Assumptions C07_add_crash.
 
-(* F15: add zorgle, then Zorgle: one entry is left and zorgle is reported again *)
-Theorem C07_case_refuted :
-  let s := run_fs a_is_lower a_lower [] id_order fs_empty [AddWord SUser w_zorgle; AddWord SUser w_Zorgle] in
+(* F15 (open): add zorgle, then Zorgle: one entry is left and zorgle is reported again *)
+Theorem C07_case_refuted : let s := run_fs a_is_lower a_lower [] id_order fs_empty [AddWord SUser w_zorgle; AddWord SUser w_Zorgle] in
   accepted a_is_lower a_lower (children a_is_lower a_lower []
      (run_fs a_is_lower a_lower [] id_order fs_empty [AddWord SUser w_zorgle]) u_doc) w_zorgle = true /\
   accepted a_is_lower a_lower (children a_is_lower a_lower [] s u_doc) w_zorgle = false /\
   option_map words_of (load_dict a_is_lower a_lower UserP s) = Some [w_Zorgle].
 Proof. exact case_refuted. Qed.
-Check C07_case_refuted :
-  let s := run_fs a_is_lower a_lower [] id_order fs_empty [AddWord SUser w_zorgle; AddWord SUser w_Zorgle] in
+Check C07_case_refuted : let s := run_fs a_is_lower a_lower [] id_order fs_empty [AddWord SUser w_zorgle; AddWord SUser w_Zorgle] in
   accepted a_is_lower a_lower (children a_is_lower a_lower []
      (run_fs a_is_lower a_lower [] id_order fs_empty [AddWord SUser w_zorgle]) u_doc) w_zorgle = true /\
   accepted a_is_lower a_lower (children a_is_lower a_lower [] s u_doc) w_zorgle = false /\
   option_map words_of (load_dict a_is_lower a_lower UserP s) = Some [w_Zorgle].
 Print Assumptions C07_case_refuted.
 
-(* a "word" with a line feed reloads as two other words *)
-Theorem C07_newline_refuted :
-  option_map words_of (load_dict a_is_lower a_lower UserP
+(* FC07c (open): a "word" with a line feed reloads as two other words *)
+Theorem C07_newline_refuted : option_map words_of (load_dict a_is_lower a_lower UserP
      (run_fs a_is_lower a_lower [] id_order fs_empty [AddWord SUser w_flurb_nl])) = Some [w_fl; w_urb].
 Proof. exact newline_refuted. Qed.
-Check C07_newline_refuted :
-  option_map words_of (load_dict a_is_lower a_lower UserP
+Check C07_newline_refuted : option_map words_of (load_dict a_is_lower a_lower UserP
      (run_fs a_is_lower a_lower [] id_order fs_empty [AddWord SUser w_flurb_nl])) = Some [w_fl; w_urb].
 Print Assumptions C07_newline_refuted.
 
-(* new finding: a word with a typographic apostrophe is still reported after it was added *)
-Theorem C07_apostrophe_refuted :
-  line_safe w_blorfs /\
-  accepted a_is_lower a_lower (children a_is_lower a_lower []
-     (run_fs a_is_lower a_lower [] id_order fs_empty [AddWord SUser w_blorfs]) u_doc) w_blorfs = false.
-Proof. exact apostrophe_refuted. Qed.
-Check C07_apostrophe_refuted :
-  line_safe w_blorfs /\
-  accepted a_is_lower a_lower (children a_is_lower a_lower []
-     (run_fs a_is_lower a_lower [] id_order fs_empty [AddWord SUser w_blorfs]) u_doc) w_blorfs = false.
-Print Assumptions C07_apostrophe_refuted.
-
-(* new finding: a word the curated dictionary lists for another dialect stays reported *)
-Theorem C07_dialect_refuted :
-  accepted a_is_lower a_lower
+(* FC07b (open): a word the curated dictionary lists for another dialect stays reported *)
+Theorem C07_dialect_refuted : accepted a_is_lower a_lower
     (children a_is_lower a_lower cur_colour
        (run_fs a_is_lower a_lower cur_colour id_order fs_empty [AddWord SUser w_colour]) u_doc) w_colour = false.
 Proof. exact dialect_refuted. Qed.
-Check C07_dialect_refuted :
-  accepted a_is_lower a_lower
+Check C07_dialect_refuted : accepted a_is_lower a_lower
     (children a_is_lower a_lower cur_colour
        (run_fs a_is_lower a_lower cur_colour id_order fs_empty [AddWord SUser w_colour]) u_doc) w_colour = false.
 Print Assumptions C07_dialect_refuted.
 
-(* F15, harper-wasm half: import Zorgle, then zorgle: the word count does not grow, the lint dictionary is
-   not rebuilt, zorgle is reported although it was just imported *)
-Theorem C07_wasm_resync_refuted :
-  x_wasm tb_zorgle [] [WImport [w_Zorgle]; WImport [w_zorgle]; WLint [w_zorgle]; WExport]
-  = [WONone; WONone; WOFlags [true]; WOWords [w_zorgle]].
-Proof. exact wasm_resync_refuted. Qed.
-Check C07_wasm_resync_refuted :
-  x_wasm tb_zorgle [] [WImport [w_Zorgle]; WImport [w_zorgle]; WLint [w_zorgle]; WExport]
-  = [WONone; WONone; WOFlags [true]; WOWords [w_zorgle]].
-Print Assumptions C07_wasm_resync_refuted.
-
-(* the proposed repair (fixes/F14.diff): with write-temp-then-rename every crash state holds the old or
-   the complete new file, so a crash during an add loses at most the word being added *)
-Theorem C07_atomic_save : forall (p : path) (ws : list word) (s s' : fsys),
-  In s' (crash_states None (s, []) (atomic_save_effects p ws)) ->
-  fs_read p s' = fs_read p s \/ fs_read p s' = Some (Clean (serialize ws)).
-Proof. exact atomic_crash. Qed.
-Check C07_atomic_save : forall (p : path) (ws : list word) (s s' : fsys),
-  In s' (crash_states None (s, []) (atomic_save_effects p ws)) ->
-  fs_read p s' = fs_read p s \/ fs_read p s' = Some (Clean (serialize ws)).
-Print Assumptions C07_atomic_save.
-
-Theorem C07_atomic_add_crash : forall (is_lower : N -> bool) (lower : N -> list N) (iter_order : list word -> list word),
-  (forall l : list word, Permutation (iter_order l) l) ->
-  forall (p : path) (w : word) (s s' : fsys),
-  fs_ok is_lower lower s -> line_safe w ->
-  In s' (crash_states None (s, [])
-           (atomic_save_effects p (words_iter iter_order (append_word is_lower lower (dict_at is_lower lower p s) w)))) ->
-  dict_at is_lower lower p s' = dict_at is_lower lower p s \/
-  dict_equiv (dict_at is_lower lower p s') (append_word is_lower lower (dict_at is_lower lower p s) w).
-Proof. exact atomic_add_crash. Qed.
-Check C07_atomic_add_crash : forall (is_lower : N -> bool) (lower : N -> list N) (iter_order : list word -> list word),
-  (forall l : list word, Permutation (iter_order l) l) ->
-  forall (p : path) (w : word) (s s' : fsys),
-  fs_ok is_lower lower s -> line_safe w ->
-  In s' (crash_states None (s, [])
-           (atomic_save_effects p (words_iter iter_order (append_word is_lower lower (dict_at is_lower lower p s) w)))) ->
-  dict_at is_lower lower p s' = dict_at is_lower lower p s \/
-  dict_equiv (dict_at is_lower lower p s') (append_word is_lower lower (dict_at is_lower lower p s) w).
-Print Assumptions C07_atomic_add_crash.
-
-(* the per-document linter cache: after an add of a non-empty word with a new id the hashed stream of the
-   changed child differs (it is longer) for every pair of iteration orders, so update_document builds a new
-   linter.  Partial: the empty word and a same-id replacement are not covered; the second can collide
-   (C07_merge_rebuild_same_id_refuted) *)
-Theorem C07_merge_rebuild_partial : forall (is_lower : N -> bool) (lower : N -> list N) (o1 o2 : list word -> list word),
+(* the per-document linter cache: the hash of a child dictionary (sum of per-word hashes since f2dc537,
+   modelled as the multiset of its words) changes with EVERY add that changes the dictionary — a new word,
+   the empty word, a new spelling of a known id — for every pair of iteration orders, so update_document
+   builds a new linter; and it is unchanged exactly when the add changes nothing *)
+Theorem C07_merge_rebuild : forall (is_lower : N -> bool) (lower : N -> list N) (o1 o2 : list word -> list word),
   (forall l, Permutation (o1 l) l) -> (forall l, Permutation (o2 l) l) ->
-  forall (d : dict) (w : word),
-  lookup (word_id is_lower lower w) d = None -> w <> [] ->
-  child_stream o1 d <> child_stream o2 (append_word is_lower lower d w).
-Proof. exact merge_rebuild_partial. Qed.
-Check C07_merge_rebuild_partial : forall (is_lower : N -> bool) (lower : N -> list N) (o1 o2 : list word -> list word),
+  forall (d : dict) (w : word), dict_wf is_lower lower d ->
+  (lookup (word_id is_lower lower w) d <> Some (w, true) ->
+   child_hash_eqb (child_words o1 d) (child_words o2 (append_word is_lower lower d w)) = false) /\
+  (lookup (word_id is_lower lower w) d = Some (w, true) ->
+   append_word is_lower lower d w = d /\
+   child_hash_eqb (child_words o1 d) (child_words o2 (append_word is_lower lower d w)) = true).
+Proof. exact merge_rebuild. Qed.
+Check C07_merge_rebuild : forall (is_lower : N -> bool) (lower : N -> list N) (o1 o2 : list word -> list word),
   (forall l, Permutation (o1 l) l) -> (forall l, Permutation (o2 l) l) ->
-  forall (d : dict) (w : word),
-  lookup (word_id is_lower lower w) d = None -> w <> [] ->
-  child_stream o1 d <> child_stream o2 (append_word is_lower lower d w).
-Print Assumptions C07_merge_rebuild_partial.
+  forall (d : dict) (w : word), dict_wf is_lower lower d ->
+  (lookup (word_id is_lower lower w) d <> Some (w, true) ->
+   child_hash_eqb (child_words o1 d) (child_words o2 (append_word is_lower lower d w)) = false) /\
+  (lookup (word_id is_lower lower w) d = Some (w, true) ->
+   append_word is_lower lower d w = d /\
+   child_hash_eqb (child_words o1 d) (child_words o2 (append_word is_lower lower d w)) = true).
+Print Assumptions C07_merge_rebuild.
 
-Theorem C07_merge_rebuild_same_id_refuted :
+(* ... hence the server with its linter cache (run_cached: a linter per open document, rebuilt only when the
+   child hashes differ) reports exactly what a server that reloads the dictionaries for every check reports
+   (run — the semantics all theorems above are about), for every history *)
+Theorem C07_cache_transparent : forall (is_lower : N -> bool) (lower : N -> list N) (curated : dict)
+    (iter_order : list word -> list word),
+  (forall l : list word, Permutation (iter_order l) l) ->
+  forall (h : list op) (s : fsys),
+  snd (run_cached is_lower lower curated iter_order (s, []) h) = snd (run is_lower lower curated iter_order s h) /\
+  fst (fst (run_cached is_lower lower curated iter_order (s, []) h)) = run_fs is_lower lower curated iter_order s h.
+Proof. exact cache_transparent_fresh. Qed.
+Check C07_cache_transparent : forall (is_lower : N -> bool) (lower : N -> list N) (curated : dict)
+    (iter_order : list word -> list word),
+  (forall l : list word, Permutation (iter_order l) l) ->
+  forall (h : list op) (s : fsys),
+  snd (run_cached is_lower lower curated iter_order (s, []) h) = snd (run is_lower lower curated iter_order s h) /\
+  fst (fst (run_cached is_lower lower curated iter_order (s, []) h)) = run_fs is_lower lower curated iter_order s h.
+Print Assumptions C07_cache_transparent.
+
+(* harper-wasm (since ba0a239): after any sequence of import_words the dictionary the linter checks with is
+   the user dictionary (the one export_words shows) *)
+Theorem C07_wasm_in_sync : forall (is_lower : N -> bool) (lower : N -> list N) (curated : dict) (imports : list (list word)),
+  let st := fold_left (import_words is_lower lower) imports wasm_new in
+  dict_equiv (w_lint st) (w_user st) /\
+  (forall toks : list word,
+     wasm_lint is_lower lower curated st toks =
+     map (fun t : word => negb (accepted is_lower lower [curated; w_user st] t)) toks).
+Proof. exact wasm_in_sync. Qed.
+Check C07_wasm_in_sync : forall (is_lower : N -> bool) (lower : N -> list N) (curated : dict) (imports : list (list word)),
+  let st := fold_left (import_words is_lower lower) imports wasm_new in
+  dict_equiv (w_lint st) (w_user st) /\
+  (forall toks : list word,
+     wasm_lint is_lower lower curated st toks =
+     map (fun t : word => negb (accepted is_lower lower [curated; w_user st] t)) toks).
+Print Assumptions C07_wasm_in_sync.
+
+(* ... and a word just imported is not reported, whatever was imported before (same two exclusions: curated
+   entry of another dialect; a later word of the same import with the same id and another spelling) *)
+Theorem C07_wasm_import_accepts : forall (is_lower : N -> bool) (lower : N -> list N) (curated : dict) (imports : list (list word))
+    (ws : list word) (w : word),
+  let st := import_words is_lower lower (fold_left (import_words is_lower lower) imports wasm_new) ws in
+  (forall e : entry, lookup (word_id is_lower lower w) curated = Some e -> snd e = true) ->
+  (exists pre post : list word,
+     ws = pre ++ w :: post /\
+     (forall w' : word, In w' post -> word_id is_lower lower w' = word_id is_lower lower w ->
+        normalized w' = normalized w)) ->
+  wasm_lint is_lower lower curated st [w] = [false].
+Proof. exact wasm_import_accepts. Qed.
+Check C07_wasm_import_accepts : forall (is_lower : N -> bool) (lower : N -> list N) (curated : dict) (imports : list (list word))
+    (ws : list word) (w : word),
+  let st := import_words is_lower lower (fold_left (import_words is_lower lower) imports wasm_new) ws in
+  (forall e : entry, lookup (word_id is_lower lower w) curated = Some e -> snd e = true) ->
+  (exists pre post : list word,
+     ws = pre ++ w :: post /\
+     (forall w' : word, In w' post -> word_id is_lower lower w' = word_id is_lower lower w ->
+        normalized w' = normalized w)) ->
+  wasm_lint is_lower lower curated st [w] = [false].
+Print Assumptions C07_wasm_import_accepts.
+
+(* ---- history: what the code did BEFORE the fix commits (over the `_old` definitions; not the current model) ---- *)
+(* F14 (87b8642): File::create truncated the dictionary itself: the crash state after it reloads to the EMPTY dictionary *)
+Example C07_crash_old_refuted :
+  let s0 := run_fs a_is_lower a_lower [] id_order fs_empty [AddWord SUser w_alpha; AddWord SUser w_beta] in
+  let ws := words_iter id_order (append_word a_is_lower a_lower (dict_at a_is_lower a_lower UserP s0) w_gamma) in
+  option_map words_of (load_dict a_is_lower a_lower UserP s0) = Some [w_alpha; w_beta] /\
+  exists i, (i <? length (crash_states None (s0, []) (save_effects_old UserP ws))) = true /\
+            option_map words_of (load_dict a_is_lower a_lower UserP
+               (nth i (crash_states None (s0, []) (save_effects_old UserP ws)) s0)) = Some [].
+Proof. exact crash_old_refuted. Qed.
+(* F15, wasm half (ba0a239): import Zorgle, then zorgle: the word count did not grow, the lint dictionary was not rebuilt *)
+Example C07_wasm_resync_old_refuted :
+  let st := import_words_old a_is_lower a_lower (import_words_old a_is_lower a_lower wasm_new [w_Zorgle]) [w_zorgle] in
+  wasm_lint a_is_lower a_lower [] st [w_zorgle] = [true] /\ export_words id_order st = [w_zorgle].
+Proof. exact wasm_resync_old_refuted. Qed.
+(* FC07f (f2dc537): {aA, A} -> {Aa, A}: orders existed in which both hashed the stream "AaA" *)
+Example C07_merge_rebuild_old_refuted :
   exists (d : dict) (w : word) (o1 o2 : list word -> list word),
     (forall l, Permutation (o1 l) l) /\ (forall l, Permutation (o2 l) l) /\
     words_of (append_word a_is_lower a_lower d w) <> words_of d /\
-    child_stream o1 d = child_stream o2 (append_word a_is_lower a_lower d w).
-Proof. exact merge_rebuild_refuted_same_id. Qed.
-Check C07_merge_rebuild_same_id_refuted :
-  exists (d : dict) (w : word) (o1 o2 : list word -> list word),
-    (forall l, Permutation (o1 l) l) /\ (forall l, Permutation (o2 l) l) /\
-    words_of (append_word a_is_lower a_lower d w) <> words_of d /\
-    child_stream o1 d = child_stream o2 (append_word a_is_lower a_lower d w).
-Print Assumptions C07_merge_rebuild_same_id_refuted.
+    child_stream_old o1 d = child_stream_old o2 (append_word a_is_lower a_lower d w).
+Proof. exact merge_rebuild_old_refuted_same_id. Qed.
+
+(* ---- regression examples: the old witnesses under the current model ---- *)
+(* FC07a (ebb53b3): "blorf’s" (U+2019; normalisation changes it) is accepted once added, and so is "blorf's" *)
+Example C07_apostrophe_accepted :
+  line_safe w_blorfs /\ normalized w_blorfs <> w_blorfs /\
+  accepted a_is_lower a_lower (children a_is_lower a_lower [] fs_empty u_doc) w_blorfs = false /\
+  accepted a_is_lower a_lower (children a_is_lower a_lower []
+     (run_fs a_is_lower a_lower [] id_order fs_empty [AddWord SUser w_blorfs]) u_doc) w_blorfs = true /\
+  accepted a_is_lower a_lower (children a_is_lower a_lower []
+     (run_fs a_is_lower a_lower [] id_order fs_empty [AddWord SUser w_blorfs]) u_doc) w_blorfs_ascii = true.
+Proof. exact apostrophe_accepted. Qed.
+(* F14: all 77 crash states of `add gamma` to {alpha, beta} reload to {alpha, beta} or {alpha, beta, gamma} *)
+Example C07_crash_example :
+  let s0 := run_fs a_is_lower a_lower [] id_order fs_empty [AddWord SUser w_alpha; AddWord SUser w_beta] in
+  length (add_crash_states a_is_lower a_lower id_order SUser w_gamma s0) = 77 /\
+  forallb (fun i => match option_map words_of (load_dict a_is_lower a_lower UserP
+                            (run_fs a_is_lower a_lower [] id_order s0 [CrashAdd SUser w_gamma i])) with
+                    | Some ws => perm_ofb ws [w_alpha; w_beta] || perm_ofb ws [w_alpha; w_beta; w_gamma]
+                    | None => false end) (seq 0 80) = true.
+Proof. exact crash_example. Qed.
+(* F15 wasm: import Zorgle, then zorgle: zorgle is accepted *)
+Example C07_wasm_resync_example :
+  x_wasm tb_zorgle [] [WImport [w_Zorgle]; WImport [w_zorgle]; WLint [w_zorgle]; WExport]
+  = [WONone; WONone; WOFlags [false]; WOWords [w_zorgle]].
+Proof. exact wasm_resync_example. Qed.
 
 (* ---- non-vacuity: the hypotheses of the positive theorems hold on non-trivial inputs ---- *)
-Definition h_before : list op := [LintDoc u_doc [w_zorgle; w_alpha]; AddWord (SFile u_doc) w_beta].
+Definition h_before : list op := [LintDoc u_doc [w_zorgle; w_alpha]; AddWord (SFile u_doc) w_beta; CrashAdd SUser w_gamma 9].
 Definition h_after : list op :=
-  [Restart; AddWord SUser w_alpha; AddWord (SFile u_doc) w_Zorgle; LintDoc u_doc [w_zorgle]; Restart].
-(* C07_add_sequential applies to this history (premises discharged) ... *)
+  [Restart; AddWord SUser w_alpha; CrashAdd SUser w_beta 30; AddWord (SFile u_doc) w_Zorgle; CrashAdd (SFile u_doc) w_gamma 3;
+   LintDoc u_doc [w_zorgle]; Restart].
+(* C07_add_sequential applies to this history with three crashed adds (premises discharged) ... *)
 Example C07_add_sequential_applies :
   accepted a_is_lower a_lower
     (children a_is_lower a_lower [] (run_fs a_is_lower a_lower [] id_order fs_empty (h_before ++ AddWord SUser w_zorgle :: h_after)) u_doc)
@@ -285,41 +348,61 @@ Proof.
   apply (C07_add_sequential a_is_lower a_lower [] id_order id_order_perm fs_empty h_before SUser w_zorgle h_after u_doc UserP).
   - apply fs_ok_empty.
   - repeat constructor.
-  - reflexivity.
   - intros e H. discriminate.
   - reflexivity.
-  - intros sc' w' Hin Ht Hid. unfold h_after in Hin. cbn [In] in Hin.
-    destruct Hin as [H|[H|[H|[H|[H|[]]]]]]; try discriminate; inversion H; subst; try discriminate;
+  - intros o sc' w' Hin Ho Ht Hid. unfold h_after in Hin. cbn [In] in Hin.
+    destruct Hin as [H|[H|[H|[H|[H|[H|[H|[]]]]]]]]; subst o; try discriminate; inversion Ho; subst; try discriminate;
       vm_compute in Hid; discriminate.
   - now left.
 Qed.
-(* ... and its conclusion is what the model computes *)
+(* ... and its conclusion is what the model computes, with and without the linter cache *)
 Example C07_add_sequential_computes :
   snd (run a_is_lower a_lower [] id_order fs_empty (h_before ++ AddWord SUser w_zorgle :: h_after))
-  = [[true; true]; []; []; []; []; []; [false]; []].
-Proof. vm_compute. reflexivity. Qed.
+  = [[true; true]; []; []; []; []; []; []; []; []; [false]; []] /\
+  snd (run_cached a_is_lower a_lower [] id_order (fs_empty, []) (h_before ++ AddWord SUser w_zorgle :: h_after))
+  = [[true; true]; []; []; []; []; []; []; []; []; [false]; []].
+Proof. vm_compute. split; reflexivity. Qed.
+(* the apostrophe variant of the collision premise: a later add of "blorf's" does not disturb "blorf’s" *)
+Example C07_add_sequential_apostrophe :
+  accepted a_is_lower a_lower
+    (children a_is_lower a_lower [] (run_fs a_is_lower a_lower [] id_order fs_empty ([] ++ AddWord SUser w_blorfs :: [AddWord SUser w_blorfs_ascii])) u_doc)
+    w_blorfs = true.
+Proof.
+  apply (C07_add_sequential a_is_lower a_lower [] id_order id_order_perm fs_empty [] SUser w_blorfs [AddWord SUser w_blorfs_ascii] u_doc UserP).
+  - apply fs_ok_empty.
+  - repeat constructor.
+  - intros e H. discriminate.
+  - reflexivity.
+  - intros o sc' w' [H|[]] Ho _ _. subst o. inversion Ho; subst. reflexivity.
+  - now left.
+Qed.
 Example C07_save_load_example :
   let d := append_word a_is_lower a_lower (append_word a_is_lower a_lower [] w_zorgle) w_alpha in
   dict_wf a_is_lower a_lower d /\ Forall line_safe (words_of d) /\
-  option_map words_of (load_dict a_is_lower a_lower UserP (save_dict (@rev word) UserP d fs_empty)) = Some [w_alpha; w_zorgle].
+  option_map words_of (load_dict a_is_lower a_lower UserP (save_dict (@rev word) UserP d fs_empty)) = Some [w_alpha; w_zorgle] /\
+  fs_read (TmpP UserP) (save_dict (@rev word) UserP d fs_empty) = None.
 Proof.
-  split; [apply wf_append, wf_append, wf_nil|]. split; [repeat constructor|]. vm_compute. reflexivity.
+  split; [apply wf_append, wf_append, wf_nil|]. split; [repeat constructor|]. vm_compute. split; reflexivity.
 Qed.
 Example C07_file_dict_name_inj_example :
   Forall no_pct (components p_a_b) /\ components p_a_b = [[97%N]; [98%N]] /\ x_name p_a_b = [97; 37; 98; 37]%N.
 Proof. split; [|split]; [|reflexivity|reflexivity]. vm_compute. repeat constructor; intros [H|[]]; discriminate. Qed.
-Example C07_atomic_example :
-  let s0 := run_fs a_is_lower a_lower [] id_order fs_empty [AddWord SUser w_alpha; AddWord SUser w_beta] in
-  let ws := words_iter id_order (append_word a_is_lower a_lower (dict_at a_is_lower a_lower UserP s0) w_gamma) in
-  length (crash_states None (s0, []) (atomic_save_effects UserP ws)) = 76 /\
-  forallb (fun s' => match fs_read UserP s' with
-                     | Some c => content_eqb c (Clean (serialize [w_alpha; w_beta])) || content_eqb c (Clean (serialize ws))
-                     | None => false end)
-          (crash_states None (s0, []) (atomic_save_effects UserP ws)) = true /\
-  fs_read UserP (atomic_save_words UserP ws s0) = Some (Clean (serialize ws)).
+(* the crash decision function on observations: old + partial sibling, new without sibling are possible;
+   a truncated dictionary, or the new dictionary next to a sibling, are not *)
+Example C07_crash_states_example :
+  let old := Some (Clean (serialize [w_alpha])) in
+  let total := serialize [w_alpha; w_beta] in
+  crash_possibleb old None total old None = true /\
+  crash_possibleb old None total old (Some (Clean [97; 108]%N)) = true /\
+  crash_possibleb old None total (Some (Clean total)) None = true /\
+  crash_possibleb old None total (Some (Clean [])) None = false /\
+  crash_possibleb old None total (Some (Clean [97; 108]%N)) None = false /\
+  crash_possibleb old None total (Some (Clean total)) (Some (Clean total)) = false.
 Proof. vm_compute. repeat split. Qed.
 Example C07_merge_rebuild_example :
-  lookup (word_id a_is_lower a_lower w_gamma) (append_word a_is_lower a_lower [] w_alpha) = None /\
-  child_stream id_order (append_word a_is_lower a_lower [] w_alpha) = w_alpha /\
-  child_stream (@rev word) (append_word a_is_lower a_lower (append_word a_is_lower a_lower [] w_alpha) w_gamma) = w_gamma ++ w_alpha.
-Proof. vm_compute. repeat split. Qed.
+  let d := append_word a_is_lower a_lower (append_word a_is_lower a_lower [] [97; 65]%N) [65]%N in
+  dict_wf a_is_lower a_lower d /\
+  lookup (word_id a_is_lower a_lower [65; 97]%N) d <> Some ([65; 97]%N, true) /\
+  child_stream_old (@rev word) d = child_stream_old id_order (append_word a_is_lower a_lower d [65; 97]%N) /\
+  child_hash_eqb (child_words (@rev word) d) (child_words id_order (append_word a_is_lower a_lower d [65; 97]%N)) = false.
+Proof. split; [apply wf_append, wf_append, wf_nil|]. vm_compute. split; [discriminate|split; reflexivity]. Qed.
